@@ -110,7 +110,7 @@ def e1_jobs(prop, tier, seed):
     jobs += mj
     # 32-bit only: a front offset beyond usize::MAX>>5 promotes the inline BytesMut inside advance();
     # reached under Miri i686 with a 128 MiB zeroed buffer
-    if prop in ("C01", "C02", "C03", "C04"):
+    if prop in ("C01", "C02", "C03", "C04", "C07", "C08"):
         nb = 2 if quick else 8
         bj = miri_jobs("seqdrive", [["bigoff", "--seed", str(seed * 5 + k), "--ops", "10", "--prop", prop] for k in range(nb)], "miri-i686-bigoff", seeds=None, target="i686-unknown-linux-gnu", timeout=1500)
         for k, j in enumerate(bj):
@@ -248,7 +248,15 @@ def run_c09(prop, tier, seed, t0):
     jobs += buf_jobs("dbg", "readers", seed + 1, n, ["--count", "15000" if quick else "400000"], "rd-dbg")
     nm = 4 if quick else 16
     jobs += buf_miri("readers", [["--seed", str(seed), "--shard", str(k), "--nshards", str(nm), "--count", "60" if quick else "250"] for k in range(nm)], "miri-rd", seed)
-    return run_and_finish(prop, tier, seed, t0, jobs, READER_RULE, extra={"fragmentations_exhaustive_up_to_len": 6 if quick else 7},
+    # io::Cursor sweep (positions inside / past the end / around 2^32, 2^63, u64::MAX x counts near usize::MAX):
+    # complete natively in both profiles (overflow checks on and off), slices of it on a 32-bit target under Miri
+    jobs += buf_jobs("dbg", "cursors", seed, 4, [], "curs-dbg")
+    jobs += buf_jobs("rel", "cursors", seed, 4, [], "curs-rel")
+    cs = 64 if quick else 16
+    picks = [(seed * 29 + k * 11) % cs for k in range(3 if quick else 16)]
+    jobs += buf_miri("cursors", [["--shard", str(k), "--nshards", str(cs)] for k in picks], "miri-i686-curs", seed, target="i686-unknown-linux-gnu")
+    jobs += buf_miri("readers", [["--seed", str(seed + 5), "--shard", str(k), "--nshards", "2", "--count", "60" if quick else "250"] for k in range(2)], "miri-i686-rd", seed, target="i686-unknown-linux-gnu")
+    return run_and_finish(prop, tier, seed, t0, jobs, READER_RULE + " Part 3 sweeps io::Cursor as a Buf: data lengths 0..=4 x positions inside / at / past the end and around 2^32, 2^33, 2^63, u64::MAX (beyond usize on a 32-bit target) x bare / Take / Chain x every op with ordinary and near-usize::MAX counts, after 0 or 1 earlier ops; complete natively in debug and release, slices under Miri i686.", extra={"fragmentations_exhaustive_up_to_len": 6 if quick else 7},
                           assumptions=["the harness Seg buffer itself obeys the Buf laws (it is checked by the same oracle as a bare leaf)"])
 
 
@@ -280,7 +288,7 @@ def run_c10(prop, tier, seed, t0):
         args = [["--shard", str((seed * 37 + k * 53) % tot), "--nshards", str(tot)] for k in range(per)]
         jobs += buf_miri("getters", args, "miri-" + tname, seed, target=target, timeout=2400)
     rule = ("exhaustive table: each of the 38 get_X and 38 try_get_X methods (u8..i128, f32/f64, uint/int with nbytes 0..=9; be/le/ne) x 8 value patterns (00.., ff.., 80 00.., 7f ff.., ..80, 01 02 03.., 2 pseudo-random) "
-            "x 9 implementors (slice, Bytes, BytesMut, Cursor, wrapped VecDeque, Seg, Chain, Chain(&mut Seg), Take(Chain(SegMulti))) x every position of one chunk boundary before/inside/after the value (a second boundary for widths>=4) x call path (dyn, &mut T, Box<T>) "
+            "x 10 implementors (slice, Bytes, BytesMut, Cursor, wrapped VecDeque, Seg, Chain, Chain(&mut Seg), Take(Chain(SegMulti)), Take(Chain(slice, endless source)); for empty input also io::Cursor positioned past its data / at 2^32+1 / at u64::MAX) x every position of one chunk boundary before/inside/after the value (a second boundary for widths>=4) x call path (dyn, &mut T, Box<T>) "
             "x every shortfall 0..width-1; oracle = from_{be,le,ne}-style reference decode with arithmetic sign extension, Err{requested,available}, cursor position and left-over bytes. The native table is complete; Miri (host, s390x big-endian, i686) interprets a seeded slice of it. "
             "A cell = (type+endianness | width | implementor | path | boundary class / short).")
     return run_and_finish(prop, tier, seed, t0, jobs, rule, key="getter_calls", exhaustive=True,
@@ -324,13 +332,19 @@ def run_c17(prop, tier, seed, t0):
         j.crash = "violation"
     jobs += mj
     # owner / iterator / IntoIter entries completely under Miri (uninitialised reads are only visible there)
-    mj2 = buf_miri("faults", [["--seed", str(seed), "--shard", str(k), "--nshards", "4", "--count", "0", "--entry-from", "18", "--entry-to", "24"] for k in range(4)], "miri-iter", seed, ignore_leaks=False)
+    mj2 = buf_miri("faults", [["--seed", str(seed), "--shard", str(k), "--nshards", "4", "--count", "0", "--entry-from", "18", "--entry-to", "24", "--no-short"] for k in range(4)], "miri-iter", seed, ignore_leaks=False)
     for j in mj2:
         j.crash = "violation"
     jobs += mj2
+    # consumers fed by a Buf whose overridden copy_to_slice / try_copy_to_slice under-fill (short reads): what
+    # the crate returns must still be initialised memory -- only Miri sees that
+    mj3 = buf_miri("faults", [["--seed", str(seed), "--shard", str(k), "--nshards", "4", "--count", "0", "--entry-from", "30", "--entry-to", "36", "--no-short"] for k in range(4)], "miri-cts", seed, ignore_leaks=False)
+    for j in mj3:
+        j.crash = "violation"
+    jobs += mj3
     rule = ("fault injection: a Buf written in safe code lies according to a plan (which trait call number misreports: remaining +1/+9/-1/usize::MAX/0, chunk shorter/empty/a different valid slice, advance ignored/halved/doubled, or panics; chunks_vectored returning more than dst.len(); a call budget makes every schedule terminate), "
-            "plus AsRef owners answering differently per call / panicking and iterators with wrong size_hints. 30 crate entry points plus serde's visit_seq (lying SeqAccess::size_hint, injected element errors) consume them (every getter row, copy_to_slice/bytes incl. Chain/Take, chunks_vectored via Take/Chain, put into Vec/BytesMut/slices/Limit/Chain, Reader, IntoIter, from_owner, Extend/FromIterator, forwarding impls). "
-            "Exhaustive over entry x first lying call<=6 x 12 lie codes, then seeded multi-lie schedules. Oracle: ledger violations, ledger leak balance after unwinding, ASan/LSan, Miri, process status; wrong results and panics are allowed. "
+            "a variant overriding copy_to_slice / try_copy_to_slice to return without filling dst, plus AsRef owners answering differently per call / panicking and iterators with wrong size_hints. 36 crate entry points plus serde's visit_seq (lying SeqAccess::size_hint, injected element errors) consume them (every getter row, copy_to_slice/bytes incl. Chain/Take, chunks_vectored via Take/Chain, put into Vec/BytesMut/slices/Limit/Chain, Reader, IntoIter, from_owner, Extend/FromIterator, forwarding impls). "
+            "Exhaustive over entry x first lying call<=6 x 12 lie codes; every getter row on a buffer shorter than the value whose first remaining() over-reports x chunk lie x second-remaining lie; then seeded multi-lie schedules. Oracle: ledger violations, ledger leak balance after unwinding, ASan/LSan, Miri, process status; wrong results and panics are allowed. "
             "A cell = (entry point | outcome ok/panic/budget | number of lies).")
     return run_and_finish(prop, tier, seed, t0, jobs, rule, level="fault_enumeration", key="fault_cases",
                           assumptions=["BufMut is an unsafe trait: lying BufMut implementations are out of scope", "size_hint lies are limited to values that either panic in Vec (capacity overflow) or are small; multi-GiB requests (allocation-failure aborts) are not issued"])
@@ -462,6 +476,14 @@ def run_c16(prop, tier, seed, t0):
         for par in ("even", "odd"):
             jobs.append(Job(f"{c}/{par}/rd:0", [exe, "readers", "--seed", str(seed), "--count", rcount, "--digest", "--parity", par], build=c, timeout=2400))
             jobs.append(Job(f"{c}/{par}/wr:0", [exe, "writers", "--seed", str(seed), "--count", rcount, "--digest", "--parity", par], build=c, timeout=2400))
+    # io::Cursor sweep (positions up to u64::MAX, counts up to usize::MAX): overflow checks on / off natively,
+    # 64- vs 32-bit under Miri. Counts are expressed relative to usize::MAX, so outcomes must agree.
+    for c in ["dbg", "rel", "dbg-xp", "rel-xp"]:
+        exe = binpath(c, "bufconf")
+        jobs.append(Job(f"{c}/-/curs:0", [exe, "cursors", "--digest"], build=c, timeout=2400))
+    cpicks = [(seed * 29 + k * 11) % 64 for k in range(2 if quick else 8)]
+    for tname, target in (("miri-host", None), ("miri-i686", "i686-unknown-linux-gnu")):
+        jobs += buf_miri("cursors", [["--shard", str(k), "--nshards", "64", "--digest"] for k in cpicks], tname + "/-/curs", seed, target=target, timeout=3000)
     # pointer width and endianness as configuration axes: slices of the same table under Miri
     tot = 600
     picks = [(seed * 41 + k * 97) % tot for k in range(2 if quick else 8)]
@@ -511,7 +533,7 @@ def run_c16(prop, tier, seed, t0):
     if compared:
         agg.samples.insert(0, f"{compared} (stream, case) keys compared across up to {agg.counters['configurations']} configurations, e.g. " + "; ".join(f"{k[0]}:{k[1]} -> {sorted(set(v.values()))[0]} in {len(v)} configs" for k, v in list(sorted(table.items()))[:3]))
     rule = ("the same seeded histories (seqdrive walks: general, with out-of-contract calls, BytesMut-centred, both) are executed in {debug, release} x {default, no-default-features, extra-platforms} x {even, odd} buffer-address parity and a per-history digest of all observable results "
-            "(contents, lengths, capacities, is_unique/try_reclaim/getter return values, which calls panicked; never addresses or messages) is compared for equality; likewise per-case outcome digests of the reader and writer conformance engines and per-row digests of the getter table across {dbg, rel} x {default, extra-platforms} x parity, and for seeded slices of it under Miri host / i686 (32-bit) / s390x (big-endian, _ne rows excluded). "
+            "(contents, lengths, capacities, is_unique/try_reclaim/getter return values, which calls panicked; never addresses or messages) is compared for equality; likewise per-case outcome digests of the reader and writer conformance engines, of the io::Cursor position/count sweep (also Miri host vs i686) and per-row digests of the getter table across {dbg, rel} x {default, extra-platforms} x parity, and for seeded slices of it under Miri host / i686 (32-bit) / s390x (big-endian, _ne rows excluded). "
             "evaluations = (stream, case) keys compared; a cell = stream x number of configurations x agreement x bucket.")
     return finish(prop, tier, seed, agg, t0, "exploration", rule, min_eval_key="digest_keys_compared",
                   assumptions=["the generators make the same choices in every configuration (choices depend on model state, lengths and capacities only); a divergence in choices shows up as a digest difference and is investigated as such",
